@@ -4,6 +4,7 @@ import (
 	"encoding/json"
 	"errors"
 	"reflect"
+	stdsync "sync"
 	"time"
 
 	mapset "github.com/deckarep/golang-set/v2"
@@ -16,6 +17,7 @@ import (
 
 // verifEIOSock is a recording Engine.IO socket.
 type verifEIOSock struct {
+	mu     stdsync.Mutex // the real Engine.IO socket takes its transport lock in Send and a Once in Close: scheduling points
 	id     string
 	sent   []*eioparser.Packet
 	closed int
@@ -25,8 +27,16 @@ func (e *verifEIOSock) ID() string                  { return e.id }
 func (e *verifEIOSock) PingInterval() time.Duration { return time.Second }
 func (e *verifEIOSock) PingTimeout() time.Duration  { return time.Second }
 func (e *verifEIOSock) TransportName() string       { return "polling" }
-func (e *verifEIOSock) Send(p ...*eioparser.Packet) { e.sent = append(e.sent, p...) }
-func (e *verifEIOSock) Close()                      { e.closed++ }
+func (e *verifEIOSock) Send(p ...*eioparser.Packet) {
+	e.mu.Lock()
+	e.sent = append(e.sent, p...)
+	e.mu.Unlock()
+}
+func (e *verifEIOSock) Close() {
+	e.mu.Lock()
+	e.closed++
+	e.mu.Unlock()
+}
 
 // verifRecParser is an encoder stand-in that records what was encoded: one frame "<type digit><namespace>" per packet.
 // Decoding (Add) is not used through it: harnesses call the dispatch functions with headers directly.
